@@ -142,6 +142,9 @@ class C05(Check):
         txt = locks.emit(common.REPO / "operon_ai/state/metabolism.py", "ATP_Store", METHODS, "gen",
                          "From Verif Require Import Common.LockIR.")
         common.write_if_changed(common.GEN / "Gen_C05.v", txt)
+        # C05's theorems about the generated critical sections import coq/C04/GenOk.v, which needs Gen_C04.v
+        from translators import c04_gen
+        common.write_if_changed(common.GEN / "Gen_C04.v", c04_gen.emit(common.REPO / "operon_ai/state/metabolism.py"))
 
     # -- programs ------------------------------------------------------------------
     def _rand_program(self, rng):
